@@ -35,14 +35,17 @@ TRUSTED = [
 ASSUMPTIONS = [
     "interaction records have distinct (user, item) pairs (the default interaction class of a dataset without repeats)",
     "hold-out sizes are >= 0 and fractions are in [0, 1] for the exact-count theorems (other values are modelled and compared, not claimed)",
-    "every user entity has at least one interaction (datasets built from an interaction frame)",
+    "in-Coq correspondence only for datasets built from an interaction frame (every user has a row); datasets with declared entity tables "
+    "(thousands of users without rows, user x item grid beyond 2^31 / 2^32) are checked by the oracle only - the model and theorems do not "
+    "mention entity numbers",
     "naive date-times / ISO text as cut-offs for an integer-second column are interpreted in the process zone (outside the property's quantifier; run under UTC only)",
 ]
 RULE = ("structured generator: 1-6 users with 1-6 rows each (many single-row users and users smaller than the hold-out), ties in time, integer-second / "
         "timestamp[ns] / absent time column, integer or string ids; every splitter with every parameter shape (partition counts 0..n+2, sample sizes "
         "0..n+1, repeats None/0..4, disjoint or not, oversized requests taking the cross-fold fallback, test_only), four hold-out rules with sizes 0-5 "
         "and fractions 0..1 (malformed stream: negative / >1 / missing ordering field / no time column), temporal cut-offs as int, float, datetime and "
-        "ISO text, single or sequence, with and without `end`; a few batches re-run in other time zones in separate processes.  non-trivial = no "
+        "ISO text, single or sequence, with and without `end`; a few datasets with declared entity tables whose user x item grid exceeds 2^31 / 2^32 "
+        "(records on cells 2^31 / 2^32 apart in row- and column-major order and on adjacent cells; users without rows); a few batches re-run in other time zones in separate processes.  non-trivial = no "
         "error, at least 2 records, and some pair with a non-empty test side and a non-empty (or test-only) training side; distinct = hash of the case")
 
 ZONES = ["America/New_York", "Asia/Tokyo", "Pacific/Chatham", "Europe/London"]
@@ -167,6 +170,65 @@ def gen_case(rng, malformed=False, kind=None, utc=True):
             "style": kind + ("/malformed" if malformed else "")}
 
 
+# (users, items) of the declared entity tables: the user x item grid exceeds 2**32, or lies between 2**31 and 2**32
+SPACES = [((4500, 1_000_000), 3), ((2200, 2_000_000), 2), ((2200, 1_000_000), 2)]
+
+
+def gen_big_case(rng):
+    """Few interaction records in a huge identifier space.  Records are placed on grid cells whose linear
+    positions (row-major and column-major) are 2**32 / 2**31 apart, and on adjacent cells, so that any
+    combined or narrowed (user, item) key that is not exact identifies two different records."""
+    nu, ni = rng.weighted(SPACES)
+    mod = 2**32 if nu * ni > 2**32 and rng.chance(3, 4) else 2**31
+    du = -(-mod // ni)
+    di = du * ni - mod            # (u + du, i - di) is `mod` cells after (u, i) in row-major order
+    dj = -(-mod // nu)
+    dv = dj * nu - mod            # (u - dv, i + dj) is `mod` cells after (u, i) in column-major order
+    cells = {}
+
+    def put(u, i):
+        if 0 <= u < nu and 0 <= i < ni and (u, i) not in cells:
+            cells[(u, i)] = [u + 1, i + 1, rng.randint(2, 20), rng.randint(0, 8)]
+
+    for _ in range(rng.randint(3, 6)):
+        u = rng.below(max(1, nu - du))
+        for _ in range(rng.randint(1, 3)):
+            i = rng.randint(min(di, ni - 2), ni - 2)
+            put(u, i)
+            k = rng.weighted([("row", 5), ("col", 2), ("near", 2), ("none", 1)])
+            if k == "row":
+                put(u + du, i - di)
+                if rng.chance(1, 2):
+                    put(u + du, rng.below(ni))
+            elif k == "col":
+                put(u - dv, i + dj)
+                put(u + (nu - dv if u < dv else 0), max(0, i - dj))
+            elif k == "near":
+                put(u, i + 1)
+                put(min(u + 1, nu - 1), i)
+    for _ in range(rng.randint(0, 4)):
+        put(rng.below(nu), rng.below(ni))
+    data = {"rows": rng.shuffle(list(cells.values())), "tcol": "int", "ids": "int", "space": {"users": nu, "items": ni}}
+    kind = rng.weighted([("users", 8), ("records", 1), ("time", 1)])
+    if kind == "users":
+        hk = rng.choice(["SampleN", "SampleFrac", "LastN", "LastFrac"])
+        h = {"kind": hk}
+        if hk in ("SampleN", "LastN"):
+            h["n"] = rng.weighted([(1, 4), (2, 2), (0, 1)])
+        else:
+            h["frac"] = float(rng.choice([0.3, 0.5, 0.75, 1.0])).hex()
+        if hk in ("LastN", "LastFrac"):
+            h["field"], h["explicit"] = "timestamp", rng.chance(1, 2)
+        if rng.chance(1, 2):
+            call = {"fn": "crossfold_users", "k": rng.randint(2, 3), "test_only": False, "holdout": h}
+        else:
+            call = {"fn": "sample_users", "size": nu // rng.randint(2, 3), "repeats": rng.weighted([(None, 2), (1, 2), (2, 3)]),
+                    "disjoint": rng.chance(2, 3), "test_only": rng.chance(1, 6), "holdout": h}
+    else:
+        call = gen_call(rng, kind, data, False)
+    return {"kind": kind, "data": data, "call": call, "seed": rng.randint(0, 2**31 - 1), "style": "large-id-space/" + kind}
+
+
 def gen_cases(rng, tier):
     # the case files instantiate the rounding function with the PrimFloat model; that file is kept out of
     # the dependency closure of Props/C05.v on purpose (the theorems hold for every rounding function)
@@ -175,6 +237,8 @@ def gen_cases(rng, tier):
     out = []
     for k in range(n):
         out.append(gen_case(rng.fork(k), malformed=(k % 7 == 6)))
+    for k in range(5 if tier == "quick" else 40):
+        out.append(gen_big_case(rng.fork(f"space{k}")))
     nz = 4 if tier == "quick" else 8
     per = 10 if tier == "quick" else 20
     for z in range(nz):
@@ -288,6 +352,10 @@ def coq_term(case, obs):
     if case["kind"] == "tz":
         parts = [coq_term(c, o) for c, o in zip(case["sub"], obs["sub"])]
         return " && ".join(f"({p})" for p in parts)
+    if case["data"].get("space"):
+        # thousands of users: positions are unary `nat`s in the model, so these cases are left to the oracle
+        # (the theorems do not mention entity numbers at all; they cover these datasets as any other)
+        return None
     try:
         return _term(case, obs)
     except Unrepresentable:
@@ -395,7 +463,13 @@ def _holdout_error(h, ln, data):
         return 1 if (n < 0 or n > ln) else None
     if k == "LastN":
         return 2 if (missing and ln > h["n"]) else None
-    return 2 if missing else None
+    return 2 if (missing and ln > round(ln * float.fromhex(h["frac"]))) else None
+
+
+def _all_users(data):
+    if data.get("space"):
+        return list(range(1, data["space"]["users"] + 1))
+    return sorted({r[0] for r in data["rows"]})
 
 
 def _expected_error(case, rows):
@@ -403,7 +477,8 @@ def _expected_error(case, rows):
     call, data = case["call"], case["data"]
     fn = call["fn"]
     n = len(rows)
-    lens = Counter(r[0] for r in rows)
+    lens = Counter({u: 0 for u in _all_users(data)})
+    lens.update(r[0] for r in rows)
     nu = len(lens)
     if fn in ("split_global_time", "split_temporal_fraction"):
         return 3 if data["tcol"] == "none" else None
@@ -473,8 +548,10 @@ def oracle(case, obs):
     if isinstance(exp, int):
         return [(f"missing-error:{fn}", f"{fn} accepted an input it has to reject (expected error class {exp})")]
     n = len(rows)
-    users = sorted({r[0] for r in rows})
-    by_user = {u: [r for r in rows if r[0] == u] for u in users}
+    users = _all_users(data)
+    by_user = {u: [] for u in users}
+    for r in rows:
+        by_user[r[0]].append(r)
     folds = obs["folds"]
 
     def add(key, what):
@@ -561,11 +638,15 @@ def oracle(case, obs):
                     add(f"disjoint:{fn}", "disjoint user samples share a user")
         tfield = 3 if h.get("field") == "timestamp" else 2
         for j, f in enumerate(folds):
+            keyset = set(f["keys"])
             if any(u not in by_user for u in f["keys"]):
                 add(f"unknown-test-user:{fn}", "a test key is not a user of the dataset")
                 continue
+            te_by = {}
+            for r in f["test"]:
+                te_by.setdefault(r[0], []).append(r)
             for u in f["keys"]:
-                held = [r for r in f["test"] if r[0] == u]
+                held = te_by.get(u, [])
                 row = by_user[u]
                 want = _holdout_count(h, len(row))
                 if want is not None and len(held) != want:
@@ -574,12 +655,15 @@ def oracle(case, obs):
                     kept = [r for r in row if r not in held]
                     if kept and min(r[tfield] for r in held) < max(r[tfield] for r in kept):
                         add(f"holdout-order:{h['kind']}", f"user with {len(row)} rows: a held-out row is older than a kept row")
-            stray = [r for r in f["test"] if r[0] not in f["keys"]]
+            stray = [r for r in f["test"] if r[0] not in keyset]
             if stray:
                 add(f"stray-test:{fn}", "test records of a user that is not a test user")
             if f["train"] or not call.get("test_only"):
+                tr_by = {}
+                for r in f["train"]:
+                    tr_by.setdefault(r[0], []).append(r)
                 for u in users:
-                    if u not in f["keys"] and [r for r in f["train"] if r[0] == u] != by_user[u]:
+                    if u not in keyset and tr_by.get(u, []) != by_user[u]:
                         add(f"other-users:{fn}", f"pair {j}: rows of a user outside the test users are missing from the training part")
         return v
 
@@ -633,8 +717,14 @@ def counters(case, obs):
     yield "style=" + case["style"]
     yield "tcol=" + data["tcol"]
     yield "ids=" + data["ids"]
+    if data.get("space"):
+        g = data["space"]["users"] * data["space"]["items"]
+        yield "id-space=" + (">2^32" if g > 2**32 else ">2^31" if g > 2**31 else "small")
     yield f"error={obs['error']}"
-    lens = Counter(r[0] for r in data["rows"])
+    lens = Counter({u: 0 for u in _all_users(data)}) if data.get("space") else Counter()
+    lens.update(r[0] for r in data["rows"])
+    if 0 in lens.values():
+        yield "has-user-without-rows"
     if 1 in lens.values():
         yield "has-single-row-user"
     ts = [r[3] for r in data["rows"]]
@@ -677,7 +767,7 @@ def counters(case, obs):
 def sample(case, obs):
     if case["kind"] == "tz":
         return {"tz": case["tz"], "first": sample(case["sub"][0], obs["sub"][0])}
-    return {"case": case, "observation": {"error": obs["error"], "folds": [{k: f[k] for k in ("train", "test", "keys")} for f in obs["folds"][:3]]}}
+    return {"case": case, "observation": {"error": obs["error"], "folds": [{k: f[k][:40] for k in ("train", "test", "keys")} for f in obs["folds"][:3]]}}
 
 
 def shrink(case, fails):
@@ -685,6 +775,7 @@ def shrink(case, fails):
         subs = common.shrink_list(case["sub"], lambda xs: bool(xs) and fails({**case, "sub": xs}), 12)
         return {**case, "sub": subs}
     c = dict(case)
-    rows = common.shrink_list(case["data"]["rows"], lambda xs: bool(xs) and fails({**c, "data": {**case["data"], "rows": xs}}), 60)
+    steps = 10 if case["data"].get("space") else 60      # a run over a large identifier space takes seconds
+    rows = common.shrink_list(case["data"]["rows"], lambda xs: bool(xs) and fails({**c, "data": {**case["data"], "rows": xs}}), steps)
     c["data"] = {**case["data"], "rows": rows}
     return c
